@@ -70,7 +70,7 @@ func reprV(v sb.V) string {
 
 func isNumKind(k string) bool {
 	switch k {
-	case "num", "float64", "float32", "int", "int8", "int16", "int32", "int64", "uint", "uint8", "uint16", "uint32", "uint64":
+	case "num", "float64", "float32", "int", "int8", "int16", "int32", "int64", "uint", "uint8", "uint16", "uint32", "uint64", "nan":
 		return true
 	}
 	return false
@@ -80,13 +80,16 @@ func numOf(v sb.V) float64 {
 	if v.K == "float32" {
 		return float64(float32(v.N))
 	}
+	if v.K == "nan" {
+		return math.NaN() // (a kind of its own: JSON cannot carry NaN)
+	}
 	return v.N
 }
 
 // goType names the dynamic Go type of a described scalar.
 func goType(v sb.V) string {
 	switch v.K {
-	case "num", "float64":
+	case "num", "float64", "nan":
 		return "float64"
 	case "str":
 		return "string"
@@ -139,7 +142,39 @@ func expectAttr(c, k sb.V, args []sb.V) expect {
 		return expect{mode: "nopanic"}
 	}
 	switch {
+	case c.K == "embednil":
+		// Page{*Meta(nil), Title}: a field promoted through the nil embedded
+		// pointer does not exist on this value
+		switch {
+		case k.K == "str" && k.S == "Title":
+			return expect{mode: "elem", repr: strconv.Quote(c.S)}
+		case k.K == "str" && (k.S == "Meta" || k.S == "Describe"):
+			return expect{mode: "nopanic"}
+		}
+		return expect{mode: "error"}
+	case c.K == "cyclicmap":
+		if k.K == "str" && k.S == "title" {
+			return expect{mode: "elem", repr: `"t"`}
+		}
+		if k.K == "str" && (k.S == "self" || k.S == "kids") {
+			return expect{mode: "nopanic"}
+		}
+		return expect{mode: "error"}
+	case c.K == "cyclicnode":
+		if k.K == "str" && k.S == "Name" {
+			return expect{mode: "elem", repr: `"kid"`}
+		}
+		if k.K == "str" && (k.S == "Parent" || k.S == "Kids") {
+			return expect{mode: "nopanic"}
+		}
+		return expect{mode: "error"}
 	case c.K == "hash" || strings.HasPrefix(c.K, "map:"):
+		if isNumKind(k.K) && math.IsNaN(numOf(k)) {
+			return expect{mode: "error"} // NaN equals no key
+		}
+		if k.K == "arrayofany" {
+			return expect{mode: "error"} // unhashable
+		}
 		kt := "string"
 		var keys []sb.V
 		if c.K == "hash" {
@@ -359,6 +394,8 @@ func c16Containers() []sb.V {
 		{K: "map:uint16:str", KV: []sb.V{vk("uint16", 65535)}, E: []sb.V{vstr("top16")}},
 		{K: "map:uint32:str", KV: []sb.V{vk("uint32", 4294967295)}, E: []sb.V{vstr("top32")}},
 		{K: "map:int8:str", KV: []sb.V{vk("int8", -1), vk("int8", 127)}, E: []sb.V{vstr("minus one"), vstr("max")}},
+		{K: "map:float64:str", KV: []sb.V{sb.V{K: "nan"}, vnum(1)}, E: []sb.V{vstr("nan"), vstr("one")}},
+		{K: "embednil", S: "Home"}, {K: "cyclicmap"}, {K: "cyclicnode"}, {K: "ptr", E: []sb.V{{K: "embednil", S: "P"}}},
 		{K: "map:bool:str", KV: []sb.V{{K: "bool", B: true}}, E: []sb.V{vstr("yes")}},
 		{K: "map:kstr:int", KV: []sb.V{vstr("a"), vstr("1")}, E: []sb.V{vnum(11), vnum(12)}},
 		{K: "arr", E: []sb.V{vnum(10), vstr("s"), {K: "null"}}},
@@ -383,6 +420,7 @@ func c16Containers() []sb.V {
 func c16Keys() []sb.V {
 	return []sb.V{
 		vstr("a"), vstr("b"), vstr("zz"), vstr("0"), vstr("1"), vstr("n"), vstr(""), vstr("7"),
+		vstr("Title"), vstr("Description"), vstr("Meta"), vstr("title"), vstr("self"), vstr("missing"), sb.V{K: "nan"}, {K: "arrayofany"},
 		vstr("Name"), vstr("Age"), vstr("Tags"), vstr("M"), vstr("Inner"), vstr("priv"), vstr("Extra"), vstr("Person"), vstr("Nope"), vstr("unexported"),
 		vnum(0), vnum(1), vnum(2), vnum(3), vnum(-1), vnum(7), vnum(1.5), vnum(2.5), vnum(1e30), vnum(-1e30),
 		vk("int", 0), vk("int", 1), vk("int", 7), vk("int", -1), vk("uint8", 2), vk("uint8", 3), vk("uint8", 255), vk("int8", -1), vk("int16", -1), vk("int32", -1), vk("int64", 0), vk("float32", 1), vk("uint64", 9),
